@@ -35,6 +35,9 @@ CheckInit(t) ==
 \* an initialization segment of a stored representation, requested with a DRM selection the service accepts, is answered
 Check(t) == IF t.ev = "media" THEN CheckMedia(t) ELSE IF t.ev = "init" THEN CheckInit(t)
             ELSE IF t.ev = "init_refused" THEN Report("C10_InitServed", FALSE, [status |-> t.status])
+            \* a stored segment, requested by its own number / decode time with options the service accepts, is answered with a
+            \* segment: a server error in its place is not a well-formed box stream
+            ELSE IF t.ev = "refused" /\ t.status >= 500 THEN Report("C03_WellFormed", FALSE, [status |-> t.status, served |-> "error page"])
             ELSE TRUE
 TraceInit == l = 1
 TraceNext == l <= Len(TraceLog) /\ Check(TraceLog[l]) /\ l' = l + 1
